@@ -144,7 +144,7 @@ Definition subs_in_range (cats : list (N * N * list N)) (o : otables) : bool :=
   Nat.eqb (length ca) (length sb) &&
   forallb (fun x => match nth_error cats (fst x) with Some (_, _, subs) => Nat.ltb (snd x) (length subs) | None => false end) (combine ca sb).
 
-Definition verdict (c : c03case) : N :=
+Definition verdict_with (allocs : list (nat * N * list nat)) (c : c03case) : N :=
   let os := ob_threads c in
   (* model: unique strings, order *)
   let m_pids := make_all_unique [] (map fst (cp_procs c)) in
@@ -197,7 +197,7 @@ Definition verdict (c : c03case) : N :=
                           | None => false
                           end
                       | None => false
-                      end) (cp_allocs c) in
+                      end) allocs in
   (* model conformance: same order of threads, same pid strings *)
   let conform :=
     Nat.eqb (length os) (length m_order) &&
@@ -231,3 +231,20 @@ Definition verdict (c : c03case) : N :=
             (combine m_order (ob_markers c)) in
   (if (2 <=? N.of_nat (length (cp_threads c))) && (1 <=? N.of_nat (length (cp_samples c))) then 10 else 0) +
   (if negb (wf && uniq && refs && canon && subs_ok) then 2 else if conform && tables_ok && markers_ok then 0 else 1).
+
+Definition verdict (c : c03case) : N := verdict_with (cp_allocs c) c.
+
+(* known finding F-C03a concerns allocation samples added for a thread that is not the first thread of its process: the verdict with the
+   allocation clause restricted to the samples of first threads.  A history of that class is the recorded finding only if this verdict is
+   not 2 - i.e. nothing else of the property fails on it. *)
+Definition thread_proc (c : c03case) (h : nat) : option nat :=
+  match nth_error (cp_threads c) h with Some t => let '(ph, _, _, _, _) := t in Some ph | None => None end.
+Definition is_first_thread (c : c03case) (h : nat) : bool :=
+  match thread_proc c h with
+  | Some ph => match find (fun i => match thread_proc c i with Some q => Nat.eqb q ph | None => false end) (seq 0 (length (cp_threads c))) with
+               | Some a => Nat.eqb a h
+               | None => false end
+  | None => false
+  end.
+Definition verdict_sans_f03a (c : c03case) : N :=
+  verdict_with (filter (fun s => is_first_thread c (fst (fst s))) (cp_allocs c)) c.
